@@ -206,6 +206,9 @@ def execute(desc):
     stats.update({"digest": sim.digest(), "nevents": sim.nevents, "runs": len(runs), "counters": dict(sim.counters),
                   "sched_digest": sim.sched_digest(), "switches": sim.switches, "files": len(files),
                   "clock_reads": sim.obs["clock"].reads})
+    if sim.wall_limit_hit and not sim.deadlock:
+        stats["uninformative"] = 1          # cut off by the harness's wall budget (machine under load): no verdict
+        return out, stats
     if sim.deadlock or sim.step_limit_hit:
         add("no_termination", f"Multitask deadlocked / exceeded the step budget (deadlock={sim.deadlock})")
         return out, stats
